@@ -486,6 +486,7 @@ func runC13(r *Report, tier string) {
 	}
 	r.floorSoft("R13.1", nAcc, 15, "accepting per-entry paths of the validator")
 	checkValidatorUniqueness(r, "R13.3")
+	checkValidatorExhaustive(r, "R13.1")
 	// R13.2 encoders + decoders
 	checkBucketEncoders(r, "R13.2")
 	c05Buckets(r, "R13.2")
@@ -677,6 +678,30 @@ func checkStructureEncodersIV(r *Report, rule string) {
 
 // checkValidatorUniqueness: every accepted entry normalised its label and
 // passed the duplicate test on the normalised label (R13.3 / R08.5).
+// checkValidatorExhaustive: the validator accepts a map only after its loop
+// has visited every entry: no non-failure return inside the per-entry loop,
+// and every non-failure exit of the function lies behind the loop's exit.
+func checkValidatorExhaustive(r *Report, rule string) {
+	P := r.P
+	val := P.headerValidator()
+	eps, L := P.validatorEntryPaths(val)
+	why := ""
+	for _, ep := range eps {
+		if ep.p.ret != nil && ep.accepted {
+			why = "success is returned from inside the per-entry loop at " + P.instrPos(ep.p.ret) + ": entries not yet visited are never validated"
+		}
+	}
+	for _, x := range P.factsOf(val).exits {
+		if x.kind == exitFailure {
+			continue
+		}
+		if !(L.exit == x.ret.Block() || L.exit.Dominates(x.ret.Block())) && why == "" {
+			why = "a non-failure exit at " + P.instrPos(x.ret) + " is reachable without exhausting the per-entry loop"
+		}
+	}
+	r.ob(rule, shortFn(val)+":exhaustive", val, nil, "the validator accepts only after every entry has been visited").check(why == "", "every non-failure exit lies behind the loop exit", why)
+}
+
 func checkValidatorUniqueness(r *Report, rule string) {
 	P := r.P
 	val := P.headerValidator()
@@ -782,6 +807,8 @@ func mutC13() []mutant {
 			Old: "\t_, ok := lookupLabel(h, label)\n\treturn ok", New: "\t_, ok := h[label]\n\treturn ok"},
 		{Name: "D5 re-created: the bstr predicate accepts a nil byte slice", File: "headers.go", Quick: true, Rule: "R13.1",
 			Old: "\tb, ok := v.([]byte)\n\treturn ok && b != nil", New: "\t_, ok := v.([]byte)\n\treturn ok"},
+		{Name: "uint content type ends the whole validation early", File: "headers.go", Rule: "R13.1", Key: "exhaustive", Nth: 2,
+			Old: "\t\t\tisTstr := canTstr(value)\n", New: "\t\t\tif canUint(value) {\n\t\t\t\treturn nil\n\t\t\t}\n\t\t\tisTstr := canTstr(value)\n"},
 		{Name: "kid arm also accepts text", File: "headers.go", Quick: true, Rule: "R13.1",
 			Old: "\t\t\tif !canBstr(value) {\n\t\t\t\treturn errors.New(\"header parameter: kid: require bstr type\")", New: "\t\t\tif !canBstr(value) && !canTstr(value) {\n\t\t\t\treturn errors.New(\"header parameter: kid: require bstr type\")"},
 		{Name: "crit allowed in the unprotected bucket", File: "headers.go", Rule: "R13.1",
